@@ -11,6 +11,8 @@ use starknet_crypto::Felt;
 mod ops_core;
 #[cfg(feature = "full")]
 mod ops_full;
+#[cfg(feature = "full")]
+mod ops_layout;
 #[cfg(feature = "parser")]
 mod ops_parser;
 
@@ -45,6 +47,8 @@ fn dispatch(op: &str, a: &[&str]) -> Out {
     if let Some(o) = ops_core::run(op, a) { return o; }
     #[cfg(feature = "full")]
     if let Some(o) = ops_full::run(op, a) { return o; }
+    #[cfg(feature = "full")]
+    if let Some(o) = ops_layout::run(op, a) { return o; }
     #[cfg(feature = "parser")]
     if let Some(o) = ops_parser::run(op, a) { return o; }
     panic!("HX-BAD-INPUT unknown op {}", op)
